@@ -299,6 +299,7 @@ func main() {
 	keep := flag.Bool("keep", false, "keep scratch directory")
 	scale := flag.Float64("scale", 1, "multiply run counts (development)")
 	printTrace := flag.Bool("print", false, "with -replay: print the event trace")
+	engineFilter := flag.String("engine", "", "with -selftest: only this engine")
 	flag.Parse()
 	if t := os.Getenv("VERIF_TIER"); t != "" && *tier == "quick" {
 		*tier = t
@@ -331,7 +332,7 @@ func main() {
 	case *replay != "":
 		code = doReplay(b, *replay, *printTrace)
 	case *selftest != "":
-		code = doSelftest(b, *selftest, seed, *workers)
+		code = doSelftest(b, *selftest, seed, *workers, *engineFilter)
 	case *prop != "":
 		code = doCheck(b, *prop, *tier, seed, *workers, *scale)
 	default:
@@ -618,12 +619,15 @@ func oneLine(s string, n int) string {
 	return s
 }
 
-func doSelftest(b *build, which string, seed int64, workers int) int {
+func doSelftest(b *build, which string, seed int64, workers int, only string) int {
 	switch which {
 	case "determinism":
 		// every engine: 32 seeds x 3 repetitions x GOMAXPROCS 1/4/16 in separate processes
 		bad := 0
 		for _, e := range engines {
+			if only != "" && e.Name != only {
+				continue
+			}
 			bin, err := b.buildEngine(e)
 			if err != nil {
 				fatal(2, "build %s: %v", e.Name, err)
